@@ -27,11 +27,11 @@ import (
 //                 unique without regard to case; values non-empty, no CR / LF /
 //                 NUL, first and last byte visible (surrounding blanks are
 //                 optional white space for RFC 7230, not part of the value);
-//   body          whatever follows the header block, PROVIDED it holds no
-//                 ": " anywhere: the header loop looks for the next ": " in all
-//                 that is left, so a body with ": " is taken for a header line
-//                 (this restriction applies to response bodies too, which the
-//                 bundled client parses with the same function);
+//   body          whatever follows the header block. (Before the repair of F8
+//                 the header loop did not stop at the empty line and took a
+//                 body holding ": " for a header line; bodies were generated
+//                 without ": " then. They are generated verbatim now, JSON-like
+//                 bodies included.)
 //   size          the HTTP layer reads a message with one receive, so request
 //                 and response are kept below one loopback segment (65483).
 //
@@ -59,19 +59,12 @@ type HTTPCase struct {
 	ErrCode int         `json:"err_code,omitempty"` // handler calls Error(code) and produces no body
 }
 
-const maxHTTPMsg = 60000
+// maxHTTPMsg bounds request and response size (several loopback segments of 65483 bytes)
+const maxHTTPMsg = 250000
 
-// sanitize makes b free of ": " (see the grammar above) and reports whether it
-// had to change anything.
+// sanitize used to make b free of ": " (see the grammar above).
 func sanitize(b []byte) bool {
-	ch := false
-	for i := 0; i+1 < len(b); i++ {
-		if b[i] == ':' && b[i+1] == ' ' {
-			b[i+1] = '_'
-			ch = true
-		}
-	}
-	return ch
+	return false // no longer needed, see the grammar above
 }
 
 func expand(lit string, p *Pad) (string, bool) {
@@ -150,6 +143,16 @@ func (c HTTPCase) outside() string {
 // an unrepaired known defect does not hide what else a case shows (KnownSig
 // counts the hits of the listed ones); the other unlisted failures of the same
 // case are appended to its message.
+// mayNotFitOneSegment: request or response may exceed one loopback TCP
+// segment (65483 payload bytes); estimated generously from the case.
+func (c HTTPCase) mayNotFitOneSegment() bool {
+	hsize := 0
+	for _, h := range c.Headers {
+		hsize += len(h[0]) + len(h[1]) + 4
+	}
+	return 400+len(c.Path)+hsize+len(c.body()) > 65000 || 400+len(c.resp()) > 65000
+}
+
 func pick(fs []*evid.Failure) *evid.Failure {
 	var first *evid.Failure
 	for _, f := range fs {
@@ -247,16 +250,16 @@ func runHTTP(c HTTPCase) *evid.Failure {
 			res string
 			err error
 		}{}
-		ok, pan := within(httpTimeouts[try], func() {
+		ok, pan, more := withinMore(httpTimeouts[try], func() {
 			cli, err := http.NewClient(urlFor(c.Addr, c.Port, c.Path))
 			if err != nil {
 				r.err = err
 				return
 			}
 			r.cli = cli
-			// F10 (outside C20's quantifier): the server registers for
-			// read events a moment after Accept; give it that moment.
-			time.Sleep(time.Duration(20*(try+1)) * time.Millisecond)
+			// the request follows the connect at once, as the bundled
+			// client's users do (F10: the server used to lose a request that
+			// arrived before it had registered for read events)
 			cli.SetMethod(c.Method)
 			h := map[string]string{idHeader: a.id}
 			for k, v := range sent {
@@ -270,6 +273,28 @@ func runHTTP(c HTTPCase) *evid.Failure {
 			return evid.Failf("http-client-panic", "the bundled client panicked: %s", pan)
 		}
 		flowK, flowErr = tapEP.newFlowSince(mark, portOf(c.Port))
+		if !ok && flowErr == nil {
+			// Slow or lost? The request is lost if it is completely on the
+			// wire (so the server's TCP has it), no byte of a response has
+			// been emitted, and that is still so after another 12 s of an
+			// otherwise idle process.
+			c2s, s2c := tapEP.streams(flowK)
+			if m, whole := splitHTTP(c2s.data); whole && len(m.Body) >= len(body) && len(s2c.data) == 0 {
+				ok, pan = more(12 * time.Second)
+				_, s2c = tapEP.streams(flowK)
+				if !ok && len(s2c.data) == 0 {
+					nrec := len(a.records())
+					a.release()
+					return evid.Failf("http-request-lost", "%s %s: the request (%d bytes) was on the wire completely %v ago, yet the server has emitted no byte of a response and the client is still waiting (handler invocations for this request: %d): the request is lost inside the server", c.Method, c.Path, len(c2s.data), httpTimeouts[try]+12*time.Second, nrec)
+				}
+				if ok {
+					evid.Label("http_attempt_slow_but_answered")
+				}
+			}
+		}
+		if pan != "" {
+			return evid.Failf("http-client-panic", "the bundled client panicked: %s", pan)
+		}
 		if ok {
 			done = true
 			res, cerr = r.res, r.err
@@ -295,7 +320,7 @@ func runHTTP(c HTTPCase) *evid.Failure {
 			c2s, s2c := tapEP.streams(flowK)
 			w = fmt.Sprintf("; last attempt on the wire: request %d bytes, response %d bytes", len(c2s.data), len(s2c.data))
 		}
-		return evid.Failf("http-timeout", "%s %s: no result from the bundled client within %v, three attempts (20/40/60 ms between connect and request)%s", c.Method, c.Path, httpTimeouts, w)
+		return evid.Failf("http-timeout", "%s %s: no result from the bundled client within %v, three attempts%s", c.Method, c.Path, httpTimeouts, w)
 	}
 	defer a.release()
 	if cerr != nil {
@@ -303,17 +328,40 @@ func runHTTP(c HTTPCase) *evid.Failure {
 	}
 
 	var fs []*evid.Failure
-	add := func(f *evid.Failure) { fs = append(fs, f) }
+	multi := c.mayNotFitOneSegment()
+	add := func(f *evid.Failure) {
+		if multi {
+			f = &evid.Failure{Sig: "http-multiseg:" + f.Sig, Msg: f.Msg}
+		}
+		fs = append(fs, f)
+	}
 
 	// 1. What the bundled client put on the wire.
 	var c2s, s2c streamView
 	wire := flowErr == nil
 	if wire {
 		c2s, s2c = tapEP.streams(flowK)
-		if c2s.gap || s2c.gap || c2s.segs != 1 || s2c.segs != 1 {
-			// not "one message = one segment": outside the quantifier
-			evid.Label("http_not_single_segment")
+		if multi {
+			// the client returns after the first receive: let the rest of the response reach the wire
+			for i, last := 0, -1; i < 50 && len(s2c.data) != last; i++ {
+				last = len(s2c.data)
+				time.Sleep(20 * time.Millisecond)
+				c2s, s2c = tapEP.streams(flowK)
+			}
+		}
+		if c2s.gap || s2c.gap {
+			evid.Label("http_gap_on_loopback") // never expected; the wire view cannot be trusted
 			return nil
+		}
+		if c2s.segs > 1 || s2c.segs > 1 || c.mayNotFitOneSegment() {
+			// (judged by size too: when the client returns after the first
+			// segment of the response, the second one may not be on the wire yet)
+			// The HTTP layer reads a message with one receive and has no
+			// framing (no Content-Length): a message carried in several TCP
+			// segments may be cut at a segment boundary (F24, known finding).
+			// Failures of such a case carry the prefix http-multiseg:.
+			multi = true
+			evid.Label("http_multi_segment_message")
 		}
 		m, ok := splitHTTP(c2s.data)
 		want := c.Method + " " + c.Path + " HTTP/1.1"
@@ -442,7 +490,7 @@ var (
 	valuePool = []string{"v", "0", "a: b", "a:b", ":", ": x", "x :", "text/html; charset=utf-8", "*/*", "gzip, deflate", "a\tb", "k=v; k2=v2",
 		"Basic dXNlcjpwYXNz", "\"quoted\"", "HTTP/1.1", "GET / HTTP/1.1", "é", "日本", "a  b"}
 	bodyPool = []string{"", "", "a", "hello", "\r\n", "\r\nabc", "\r\n\r\n", "\n", "\nabc", "\r", "a\r\nb", "a\r\n\r\nb", "k:v", "k :v", ":", " ", " :",
-		"a=1&b=2", "{\"a\":1}", "line\r\n", "x\r", "GET / HTTP/1.1\r\n", "name:value\r\n\r\n", "\x00", "é日€"}
+		"a=1&b=2", "{\"a\":1}", "{\"a\": 1, \"b\": \"x: y\"}", "k: v", "Host: evil\r\n", "\r\nX-Injected: 1\r\n\r\nbody", "line\r\n", "x\r", "GET / HTTP/1.1\r\n", "name:value\r\n\r\n", "\x00", "é日€"}
 	missPool = []string{"/nope", "/ech", "/echo/", "/echo2", "/ECHO", "/a", "/a/", "/a/b/", "/a/b/c", "//", "/index.htm", "/index.html/", "/B",
 		"/x-y_z.~", "/ws/", "/w", "/GET", "/POST", "/HTTP/1.1", "/%2F", "/echo%20"}
 	errCodes = []int{400, 401, 403, 404, 405, 409, 410, 418, 500, 501, 503}
@@ -460,6 +508,10 @@ func genPad(rt *rapid.T, label string, allowBig bool) *Pad {
 		n = rapid.IntRange(300, 4000).Draw(rt, label+"_padn")
 	default:
 		n = rapid.IntRange(4000, 40000).Draw(rt, label+"_padn")
+		if rapid.IntRange(0, 3).Draw(rt, label+"_huge") == 0 {
+			// more than one loopback segment
+			n = rapid.OneOf(rapid.IntRange(65000, 66000), rapid.IntRange(66000, 200000)).Draw(rt, label+"_hugen")
+		}
 	}
 	return &Pad{N: n, Seed: rapid.Uint64Range(0, 1<<20).Draw(rt, label+"_padseed"), Class: rapid.IntRange(0, 3).Draw(rt, label+"_padclass")}
 }
@@ -534,12 +586,6 @@ func genHTTP(rt *rapid.T) HTTPCase {
 			}
 		}
 	}
-	if _, ch := expand(c.Body, c.BodyPad); ch {
-		evid.Exclude("request_body_with_colon_space(rewritten)")
-	}
-	if _, ch := expand(c.Resp, c.RespPad); ch {
-		evid.Exclude("response_body_with_colon_space(rewritten)")
-	}
 	return c
 }
 
@@ -575,6 +621,12 @@ func labelHTTP(c HTTPCase) {
 		evid.Label("http_url_port_" + p)
 	}
 	evid.Label("http_req_body_" + sizeClass(len(c.body())))
+	if strings.Contains(c.body(), ": ") {
+		evid.Label("http_req_body_with_colon_space")
+	}
+	if strings.Contains(c.resp(), ": ") {
+		evid.Label("http_resp_body_with_colon_space")
+	}
 	switch n := len(c.Headers); {
 	case n == 0:
 		evid.Label("http_extra_headers_0")
